@@ -112,7 +112,7 @@ theorem exec_aborted (root : List Str) (c : Ctx) (ms : List Mut) (p : ShellPart)
 /-- in `m1 | … | { mk; }` the line is abandoned only by an `exit` that the parent itself runs -/
 theorem pl_aborted (root : List Str) (init : List Mut) (l : Mut) (p : ShellPart) (w : World) :
     (exec root .pl (init ++ [l]) p w).aborted =
-      ((lastpipeOn p || init.isEmpty) && (stepShell root l p).exited) := by
+      ((lastpipeOn p || init.isEmpty) && ((stepShell root l p).exited || execReplaces l)) := by
   simp only [exec, execWith, prepare, splitLast_append, runStages_shell]
   split <;> simp_all
 
